@@ -102,7 +102,16 @@ def make_cases(rng, _n):
                 continue  # `(p)` is a parenthesised pattern, not a 1-tuple
             pat = "(%s)" % ", ".join("1" for _ in range(m))
             add("", ty, value, sexp, pat, "tuple-arity", m == n)
+        # the same arities with one element written in its indexed form (`1.clone(): 1` - an operation applied to the element at that
+        # position): the pattern still has to name every position of the tuple
+        for m in range(2, 6):
+            for j in sorted({0, m - 1}):
+                pat = "(%s)" % ", ".join(("%d.clone(): 1" % i) if i == j else "1" for i in range(m))
+                add("", ty, value, sexp, pat, "tuple-arity-indexed-element", m == n)
         decls = "#[derive(Debug)] pub enum T { A(%s), B }" % ", ".join("i32" for _ in range(n))
+        for m in range(2, 6):
+            add(decls, "T", "T::A(%s)" % ", ".join("1" for _ in range(n)), adt("A", [], ["(int 1)"] * n),
+                "T::A(%s)" % ", ".join(("%d.clone(): 1" % i) if i == m - 1 else "1" for i in range(m)), "variant-arity-indexed-element", m == n)
         value = "T::A(%s)" % ", ".join("1" for _ in range(n))
         sexp = adt("A", [], ["(int 1)"] * n)
         for m in range(1, 6):
